@@ -282,6 +282,34 @@ func runC01(m *Sim) {
 			c02Surfaces(w, n, devs)
 		}
 	}
+	if m.Tier == "thorough" && m.C.Chance("all-640-bits", 1, 3) {
+		// Every single-bit mutation of one freshly accepted report.
+		now := Slot()
+		d := devs[m.C.Int("dev", len(devs))]
+		slot := now
+		if int64(slot) < int64(n.Model.Offset) || int64(slot) >= int64(n.Model.Offset)+4032 {
+			slot = n.Model.Offset + 100
+		}
+		base := SignedReport(d.Key, d.ID, slot, 777).Encode()
+		n.DoDatagram(base)
+		for bit := 0; bit < 640; bit++ {
+			b := append([]byte{}, base...)
+			b[bit/8] ^= 1 << uint(bit%8)
+			before := c01Take(n)
+			n.Datagram(b)
+			changed, why := n.Model.Deliver(b, now)
+			after := c01Take(n)
+			if !changed && (!reflect.DeepEqual(before.S, after.S) || !bytes.Equal(before.File, after.File)) {
+				m.Fail("C01.unchanged", why, "flipping bit %d of an accepted report (%s) changed the server state: %s", bit, why, snapDiff(before.S, after.S))
+			}
+			if changed {
+				if err := n.Model.CompareSnap(after.S); err != nil {
+					m.Fail("C01.accepted-effect", why, "bit %d flipped (%s): %v", bit, why, err)
+				}
+			}
+		}
+		m.Probe("c01.all-640-bits")
+	}
 	if len(kinds) >= 4 {
 		m.Probe("nontrivial")
 	}
